@@ -286,6 +286,7 @@ void Runner::exec_op(Thread *t, int idx) {
       } else if (v == 0) {
         if (n != 0) c14("read-returned-zero", fmt("read(%zu) returned 0", n));
       } else if (v == C.EPIPE_) {
+        { Proc *cc = proc_of(*h); if (cc && cc->st == Proc::RUNNING) probe(P_eof_before_exit); }
         if (pp && (pp->len > 0 || pp->writers > 0) && !injected_in_op(idx, v))
           viol("C02", "closed-error-before-end-of-stream", fmt("size=%s", n == 0 ? "0" : "n"),
                fmt("read(size=%zu) returned the closed-stream error with %zu bytes pending and %d writer(s)", n, pp->len, pp->writers), idx);
@@ -516,6 +517,7 @@ void Runner::after_wait_like(Thread *t, int idx, const Op &op, OpRes &res, HStat
     h.st = LS_EXITED;
     h.status = (int) v;
     h.status_known = true;
+    if (h.open_[1] || h.open_[2]) probe(P_exit_before_eof);
   }
   if (is_stop) {
     int stop[6] = { (int) op.a, (int) op.b, (int) op.c, (int) op.d, (int) op.e, (int) op.f };
@@ -631,6 +633,7 @@ void Runner::check_stop_model(Thread *t, int idx, const int stop_in[6], OpRes &r
     if (si >= sent.size() && (!ret_known || v >= 0)) { want_status = true; ended = true; break; }
     lo = blo; hi = bhi; waits_expired++;
   }
+  if (sent.size() >= 2 && sent[0].sig == SIGTERM && sent[1].sig == SIGKILL && c->spec && c->spec->term == ChildSpec::IGNORE) probe(P_term_ignored_then_kill);
   if (si < sent.size()) {
     viol(prop, "stop-extra-signal", fmt("actions=%s", triple.c_str()), fmt("signal %d was sent although the sequence should have ended before that step", sent[si].sig), idx);
     return;
